@@ -81,6 +81,19 @@ def check(pid, tier):
         if not r["violated"]:
             raise Machinery(f"named deviation '{name}' is NOT rejected by clause {clause}: the clause is vacuous")
         rejected.append(name)
-    return {"states": states, "transitions": trans, "configurations": len(cfgs),
+    # vacuity: per-action coverage over two representative configurations (normal run; a run that
+    # ends before the sampling).  "Escaped" only exists in the EscapeAtResult deviation.
+    cov = {}
+    import re as _re
+    for ci, over in enumerate((dict(), dict(Consistent=False, MaxFev=2))):
+        cfg = write_cfg(os.path.join(OUT, f"design-{tag}-cov.cfg"), spec="Spec", constants=dict(BASE, **over), invariants=inv)
+        r = run_tlc("MCCobyqa", cfg, workers=2, tag=f"design-{tag}-cov{ci}", coverage=True, timeout=900)
+        for m in _re.finditer(r"<(\w+) line \d+, col \d+ to line \d+, col \d+ of module Cobyqa>: (\d+):(\d+)", r["out"]):
+            cov[m.group(1)] = cov.get(m.group(1), 0) + int(m.group(3))
+        os.remove(cfg)
+    never = sorted(a for a, n in cov.items() if n == 0 and a != "Escaped")
+    if never or not cov:
+        raise Machinery(f"design model: actions never taken: {never} (coverage {cov})")
+    return {"states": states, "transitions": trans, "configurations": len(cfgs), "action_coverage": cov,
             "invariants": inv + props, "deviations_rejected": rejected,
             "sample_constants": {k: v for k, v in cfgs[0].items()}}
